@@ -206,6 +206,26 @@ def ev_usage(case) -> R:
     if alias.exc or alias.exit_code != 0 or norm(alias.stdout) != norm(canon_.stdout):
         r.violation("option-alias-differs", f"`spdx --add-licence-concluded --creator-person J --creator-organisation Acme`: {str(alias.brief())[:300]} "
                                             f"but the '-license-' / '-organization' spellings give a document")
+    # .reuse/dep5 with a Copyright value that starts on the continuation line and uses ' .', and a License field without synopsis:
+    # layout is not information, and 'no licence' is not a licence called None
+    root = fresh_dir("c18")
+    dep5 = ("Format: https://www.debian.org/doc/packaging-manuals/copyright-format/1.0/\nUpstream-Name: x\n\n"
+            "Files: a.py\nCopyright:\n 2020 Jane\n .\n 2021 John\nLicense: MIT\n\nFiles: b.py\nCopyright: 2020 Jane\nLicense:\n the text of a licence\n .\n more text\n")
+    materialise(root, {".reuse/dep5": dep5, "a.py": "a = 1\n", "b.py": "# SPDX-License-Identifier: MIT\nb = 1\n", "LICENSES/MIT.txt": "t\n"})
+    lint = run_cli(["--root", str(root), "--no-multiprocessing", "--suppress-deprecation", "lint", "--json"])
+    out = run_cli(["--root", str(root), "--no-multiprocessing", "--suppress-deprecation", "spdx", "--add-license-concluded", "--creator-person", "J"])
+    if lint.exc or out.exc or out.exit_code != 0:
+        r.violation("dep5-odd-fields|failed", f"lint {lint.brief()} / spdx {out.brief()}")
+    else:
+        data = json.loads(lint.stdout)
+        vals = {f["path"]: (sorted(x["value"] for x in f["copyrights"]), sorted(x["value"] for x in f["spdx_expressions"])) for f in data["files"]}
+        if vals.get("a.py") != (["2020 Jane", "2021 John"], ["MIT"]) or vals.get("b.py") != (["2020 Jane"], ["MIT"]):
+            r.violation("dep5-odd-fields|lint", f"dep5 with a continuation-line Copyright and a synopsis-less License: lint attributes {vals}")
+        doc, files, _l = spdxdoc.parse(out.stdout)
+        for f in files:
+            lc, ct = f["LicenseConcluded"][0], f["FileCopyrightText"][0]
+            if "None" in lc or ct.startswith("\n") or "\n.\n" in ct or ct.endswith("\n."):
+                r.violation("dep5-odd-fields|spdx", f"{f['FileName'][0]}: LicenseConcluded {lc!r}, FileCopyrightText {ct!r}")
     r.outcome = "usage"
     return r
 
